@@ -126,8 +126,8 @@ def check(prog, res, tier):
                 kw = {'encoding': codec(it), 'iso_config': common.generic_bit_config(it)}
             obj, f = readers.make_vbs_reader(it, prog, cls, blocked=blocked_flag, extra_kwargs=kw)
             vd = obj.fields.get('vbs_data')
-            if isinstance(vd, ObjV) and 'buffer' in vd.fields:
-                vd.fields['buffer'] = it.sym_bytes('buffered', tags=WIRE)
+            if isinstance(vd, ObjV):
+                common.set_state(it, vd, 'buffer', it.sym_bytes('buffered', tags=WIRE))
             r = obj.cls.lookup('__next__')
             return it.call_function(r[1], [], {}, self_obj=obj)
         return entry
@@ -156,7 +156,7 @@ def check(prog, res, tier):
         ci = prog.cls('mciipm.Unblock1014')
         f = it.new_file('in', tags=WIRE)
         obj = it.instantiate(ci, [f], {}, None)
-        obj.fields['buffer'] = it.sym_bytes('buffered', tags=WIRE)
+        common.set_state(it, obj, 'buffer', it.sym_bytes('buffered', tags=WIRE))
         it.user.update(file=f, obj=obj)
         n = it.sym_int('n', 0, None)
         return it.call_function(ufi, [n], {}, self_obj=obj)
